@@ -216,8 +216,13 @@ class Bench:
 			by_trx[id(t)] = m
 			b.models.append(m)
 			b.budgets.append(Budget())
+		b.orphans = []
 		for node in aw.nodes:
 			for c in node.trx.child_trx_list.trx_list:
+				if id(c) not in by_trx:
+					# a child hangs on its parent but is not in the application's own transceiver list
+					b.orphans.append(str(c))
+					continue
 				by_trx[id(node.trx)].children.append(by_trx[id(c)])
 		return b
 
